@@ -358,6 +358,15 @@ func c13Run(c *core.Ctx, idx int) {
 		}
 		lines = util.Shuffle(c.Rng, lines)
 	}
+	lookalikes := c.Rng.Intn(4) == 0
+	if lookalikes {
+		// $domain lists of four and more entries, asked from the listed sites,
+		// their subdomains and sites whose names merely end in a listed name.
+		lines = append(lines, "||ads.com^$domain=site.com|a.example|b.example|c.example", "@@||tracker.io^$domain=~site.com|~a.example|~b.example|~c.example|~d.example",
+			"/banner$domain=x.example|y.example|site.com|z.example|w.example", "||sub.ads.com^$script,domain=a.example|b.example|c.example|site.com")
+		lines = util.Shuffle(c.Rng, lines)
+		c.Event("histories_with_sources_that_end_in_a_listed_domain", 1)
+	}
 	tenants := c.Rng.Intn(4) == 0
 	if tenants {
 		lines = append(lines, "||s3.amazonaws.com^$third-party", "||amazonaws.com^$~third-party", "/ads.js$third-party,script", "||cloud.fedoraproject.org^$third-party", "||fedoraproject.org^$first-party")
@@ -452,6 +461,13 @@ func c13Run(c *core.Ctx, idx int) {
 			q.Source = []string{"http://site.com/", "http://site.com/app/page", "http://site.com/other", "https://site.com/app/", "https://site.com/"}[c.Rng.Intn(5)]
 		}
 		pool = append(pool, c13Op{Kind: []string{"web", "all"}[c.Rng.Intn(2)], Req: q})
+	}
+	if lookalikes {
+		for i := 0; i < 10; i++ {
+			src := []string{"site.com", "badsite.com", "mysite.com", "www.site.com", "xa.example", "a.example", "site.com.evil.org", "c.example"}[c.Rng.Intn(8)]
+			u := "http://" + []string{"ads.com", "tracker.io", "sub.ads.com"}[c.Rng.Intn(3)] + []string{"/banner", "/", "/ads/x.js"}[c.Rng.Intn(3)]
+			pool = append(pool, c13Op{Kind: []string{"web", "all"}[c.Rng.Intn(2)], Req: &gen.Req{URL: u, Source: "http://" + src + "/", Type: rules.TypeScript}})
+		}
 	}
 	if tenants {
 		// Sites that are tenants of a public suffix nested below a registrable
